@@ -279,6 +279,56 @@ def expandExpr (p : Param) (nounset : Bool) (m : Str → Bool) : Op → Outcome
     | some e => { res := .ok (if hasPat then mapFields e (removeWith k m) else e) }
     | none => { res := .err }
 
+/-! ## indirection `${!ref…}` -/
+
+/-- `fields_to_string` (default IFS): the text of an expansion -/
+def fieldsToString (e : Expansion) : Str := joinWith [' '] e.fields
+
+/-- `expand_parameter_internal` with `indirect = true`, a two-stage lookup: expand the reference,
+read its text as a parameter (`parse_parameter`; `env` says which parameter, in which state, a text
+names — `none`: it is not a parameter), then expand that target **with the same
+`allow_unset_vars`**. -/
+def expandIndirect (ref : Param) (env : Str → Option Param) (allowUnset nounset : Bool) : Option Expansion :=
+  match expandParam ref allowUnset nounset with
+  | none => none
+  | some e =>
+    match env (fieldsToString e) with
+    | none => none
+    | some t => expandParam t allowUnset nounset
+
+/-- `expand_parameter_expr` for `${!ref…}` (the arms of `expandExpr` with the indirect lookup).
+The parameter written in the braces is the reference: it is what `=` assigns to, and it is never
+the `$@` slice that gets `$0` put in front.  `${#ref}` has no indirect form. -/
+def expandExprInd (ref : Param) (env : Str → Option Param) (nounset : Bool) (m : Str → Bool) : Op → Outcome
+  | .plain =>
+    match expandIndirect ref env false nounset with
+    | some e => { res := .ok e }
+    | none => { res := .err }
+  | .len => expandExpr ref nounset m .len
+  | .sub off len =>
+    match expandIndirect ref env false nounset with
+    | some e => { res := substring e false off len }
+    | none => { res := .err }
+  | .test op colon word =>
+    match expandIndirect ref env true nounset with
+    | none => { res := .err }
+    | some e =>
+      match testAction op colon (classify e) with
+      | .param => { res := .ok e }
+      | .word => { res := .ok (ofStr word) }
+      | .null =>
+        if e.fromArray && !e.concatenate && e.fields.isEmpty then { res := .ok e }
+        else { res := .ok (ofStr []) }
+      | .error => { res := .err }
+      | .assign =>
+        match ref with
+        | .named _ | .elem _ _ => { res := .ok (ofStr word), assigned := some word }
+        | _ => { res := .err }
+  | .rm k hasPat =>
+    match expandIndirect ref env false nounset with
+    | some e => { res := .ok (if hasPat then mapFields e (removeWith k m) else e) }
+    | none => { res := .err }
+
 /-- the fields a double-quoted `"${…}"` produces from an expansion: `[*]`-style expansions are
 joined with the first character of IFS (a space here), `[@]`-style ones stay separate, a scalar
 is one field -/
